@@ -548,6 +548,9 @@ def fam_bin_small(negative=False):
                     yield dict(shape=shape, dtype="float64", axes=list(axes) if isinstance(axes, tuple) else axes, factors=fs, reducer=reducer,
                                inplace=(len(shape) + fs[0] if fs else 0) % 2 == 0, seed=3)
     if negative:
+        for dt in ("uint8", "int16"):
+            yield dict(shape=[8], dtype=dt, axes=-1, factors=[4], reducer="sum", inplace=False, seed=2)
+            yield dict(shape=[4, 6], dtype=dt, axes=[0, -1], factors=[2, 3], reducer="sum", inplace=True, seed=4)
         return
     for dt in ("uint8", "uint16", "int16", "bool"):  # saturated narrow integers: block sums exceed the input type's range
         yield dict(shape=[8], dtype=dt, axes=None, factors=4, reducer="sum", inplace=False, seed=2)
@@ -643,6 +646,8 @@ def fr_setup(d, layer, shard=0, nshards=1):
             else:
                 form, inplace, is_real = "out_shape", False, True
         o = ds_obj(ctx, d, min_len=1, is_real=is_real)
+        for nm, val in (("kind_real", int(is_real)), ("inplace_cfg", int(inplace)), ("form_cfg", ["out_shape", "factors-tuple", "factors-scalar"].index(form))):
+            ctx.assume(ctx.fresh(nm, "int").t == val)  # ghost constants: the case of this path, for counter-model replay
         k = len(denoted)
         out_shape = factors = None
         ms = fs = None
@@ -709,11 +714,19 @@ def fr_ensures(s):
     log = cm.dft_log(s.ctx)
     fwd = [e for e in log if e["op"] == "fftn"]
     inv = [e for e in log if e["op"] == "ifftn"]
-    pipeline_ok = (len(fwd) == 1 and len(inv) == 1 and fwd[0]["src"] is s.old.arr and fwd[0]["src_fn"] is s.old.afn
+    pipeline_ok = (len(fwd) == 1 and len(inv) == 1 and isinstance(fwd[0]["src"], SymArr) and fwd[0]["src"].ndim == d
                    and sorted(fwd[0]["axes"]) == sorted(A) and sorted(inv[0]["axes"]) == sorted(A) and inv[0]["src"].ndim == d)
     if not pipeline_ok:
         out.append((L("spectrum placement: one forward fftn of self.array and one inverse ifftn, both over exactly the selected axes"), False))
         return out
+    # ---- the array handed to fftn is self.array itself: same values and same VALUE KIND (a complex array stays complex)
+    src, src_fn = fwd[0]["src"], fwd[0]["src_fn"]
+    p = [I(f"p{i}") for i in range(d)]
+    inp = AND(*[AND(p[i] >= 0, p[i] < n[i]) for i in range(d)])
+    same_kind = bool(getattr(src, "is_real", True)) == bool(c.is_real)
+    same_shape = AND(*[lift(src.shape[i]) == n[i] for i in range(d)])
+    out.append((L("value kind: the array handed to fftn is self.array itself - same shape, same values, same kind (" + ("real" if c.is_real else "complex stays complex: no imaginary part dropped") + ")"),
+                AND(same_kind, same_shape, implies(inp, lift(S(src_fn(*p))) == lift(S(s.old.afn(*p)))))))
     G, H, Hfn, Y = fwd[0]["out_func"], inv[0]["src"], inv[0]["src_fn"], inv[0]["out_func"]
     q = [I(f"q{i}") for i in range(d)]
     inr = AND(*[AND(q[i] >= 0, q[i] < new_n[i]) for i in range(d)])
@@ -737,6 +750,7 @@ def fr_ensures(s):
         y = cm.RE(y)
     out.append((L("result = (N_out/N_in) * " + ("Re " if c.is_real else "") + "ifftn(placed spectrum),  N = number of samples on the selected axes"),
                 implies(inr, lift(S(arr.fn(*q))) == z3.ToReal(n_out) / z3.ToReal(n_in) * y)))
+    out += fr_conservation_posts(s, c, L, d, A, n, m_of, new_n, q, inr, arr, fwd[0], inv[0], n_out, n_in)
     samp, orig = [], []
     for i in range(d):
         s_old, o_old = lift(S(s.old.sampling(z3.IntVal(i)))), lift(S(s.old.origin(z3.IntVal(i))))
@@ -750,6 +764,43 @@ def fr_ensures(s):
             orig.append(o_new == o_old)
     out.append((L("extent: m*sampling' = n*sampling on selected axes, sampling unchanged elsewhere"), AND(*samp)))
     out.append((L("centre: origin' + (m-1)/2*sampling' = origin + (n-1)/2*sampling on selected axes, origin unchanged elsewhere"), AND(*orig)))
+    return out
+
+
+def fr_conservation_posts(s, c, L, d, A, n, m_of, new_n, q, inr, arr, fwd, inv, n_out, n_in):
+    """The property's conservation laws over the array's OWN scalars (real or complex), per path, from the code's data flow and
+    ground instances of the DFT axioms A5 at the clause's index constants (written as antecedents of the goal):
+      mean      fftn(x)[DC] = sum of x over the selected axes;  mean(ifftn H) = H[DC] / N_out;  Re is R-homogeneous
+      identity  ifftn(fftn x) = x   (only on paths where no selected length changes)
+      linear    every data step is linear over the scalars of self.array (complex input: C-linear - no Re, no complex->real cast)."""
+    out = []
+    kind = "real" if c.is_real else "complex"
+    G, Hfn, Y, src_fn = fwd["out_func"], inv["src_fn"], inv["out_func"], fwd["src_fn"]
+    RE = cm.RE
+    zq = [z3.IntVal(0) if i in m_of else q[i] for i in range(d)]
+    TOT_src, TOT_a = cm.total_func(src_fn, d, A), cm.total_func(s.old.afn, d, A)
+    MY = cm.mean_func(Y, d, A)
+    h0 = lift(S(Hfn(*zq)))
+    a5 = [G(*zq) == TOT_src(*zq), z3.ToReal(n_out) * MY(*zq) == h0]
+    my = MY(*zq)
+    if c.is_real:
+        a5 += [RE(TOT_a(*zq)) == TOT_a(*zq), z3.ToReal(n_out) * RE(MY(*zq)) == RE(h0)]
+        my = RE(my)
+    # stated without the division: N_out * mean(ifftn output) = sum(self.array); dividing by N_in > 0 is lemma resample-mean
+    out.append((L(f"mean preserved over {kind} scalars: N_out * " + ("Re " if c.is_real else "") + "mean(ifftn output) = sum(self.array) on the selected axes, i.e. (N_out/N_in) * mean(ifftn output) = mean(self.array) (A5 at the DC bin)"),
+                implies(AND(inr, *a5), z3.ToReal(n_out) * my == TOT_a(*zq))))
+    steps = cm.step_log(s.ctx)
+    lin_ok = not any(f == "N" for _, f in steps) and (c.is_real or not any(f == "R" for _, f in steps))
+    out.append((L(f"linear over {kind} scalars: every data step between self.array and the result is " + ("R" if c.is_real else "C") + "-linear (fftn, index selection, zero padding, ifftn, data-independent scaling"
+                  + ("; Re of a real-input result" if c.is_real else "; no real part, no complex->real conversion") + ")"), lin_ok))
+    unchanged = AND(*[m_of[a] == n[a] for a in A]) if A else z3.BoolVal(True)
+    if s.ctx.entails(unchanged):
+        k = [I(f"k{i}") for i in range(d)]
+        ink = AND(*[AND(k[i] >= 0, k[i] < new_n[i]) for i in range(d)])
+        a5_inverse = implies(forall(k, implies(ink, lift(S(Hfn(*k))) == G(*k))), Y(*q) == lift(S(src_fn(*q))))
+        hyp = [inr, a5_inverse] + ([RE(lift(S(s.old.afn(*q)))) == lift(S(s.old.afn(*q)))] if c.is_real else [])
+        out.append((L(f"identity when the shape is unchanged ({kind} scalars): result = self.array (A5: ifftn(fftn x) = x)"),
+                    implies(AND(*hyp), lift(S(arr.fn(*q))) == lift(S(s.old.afn(*q))))))
     return out
 
 
@@ -1090,18 +1141,28 @@ def fr_conc(setup):
     def conc(ev):
         aopts = setup.aopts
         k = ev("axes_opt", 0)
-        if not (0 <= k < len(aopts)):
+        if not (0 <= k < len(aopts)) or ev("scenario", 0) != 0:
             return None
         form, axes, denoted = aopts[k]
         d = setup.d
         shape = [ev(f"n{i}", 3) for i in range(d)]
-        ms = [ev(f"m{q}") for q in range(len(denoted))]
-        if any(m is None for m in ms) or any(not (1 <= n <= 24) for n in shape) or any(not (-3 <= m <= 48) for m in ms):
+        if any(not (1 <= n <= 24) for n in shape):
             return None
-        if ev("scenario", 0) != 0:
+        fform = ev("form_cfg", 0)
+        ms = factors = None
+        if fform == 0:
+            ms = [ev(f"m{q}", 2) for q in range(len(denoted))]
+            if any(not (-3 <= m <= 48) for m in ms):
+                return None
+        elif fform == 1:
+            factors = [float(ev(f"fac{q}", 1.5)) for q in range(len(denoted))]
+        else:
+            factors = float(ev("fac", 1.5))
+        fl = factors if isinstance(factors, list) else ([factors] if factors is not None else [])
+        if any(not (-2 <= f <= 4) for f in fl):
             return None
-        return dict(shape=shape, dtype="float64" if ev("real_opt", 0) == 0 else "complex128", axes=list(axes) if isinstance(axes, tuple) else axes,
-                    out_shape=ms, factors=None, inplace=False, seed=1)
+        return dict(shape=shape, dtype="float64" if ev("kind_real", 1) == 1 else "complex128", axes=list(axes) if isinstance(axes, tuple) else axes,
+                    out_shape=ms, factors=factors, inplace=ev("inplace_cfg", 0) == 1, seed=1)
 
     return conc
 
@@ -1283,6 +1344,24 @@ def conc_pad(d):
     return conc
 
 
+def _never_crash(rt):
+    """An oracle never crashes: an unexpected exception (from the real function on a changed tree) is a reported failure."""
+    import functools
+
+    @functools.wraps(rt)
+    def safe(inp):
+        try:
+            return rt(inp)
+        except Exception as e:  # noqa: BLE001
+            return dict(violated=True, observed=f"raised {type(e).__name__}: {str(e)[:200]}", expected="the statement evaluates without an exception")
+
+    return safe
+
+
+rt_bin, rt_resample, rt_pad_crop, rt_crop = (_never_crash(f) for f in (rt_bin, rt_resample, rt_pad_crop, rt_crop))
+for _c in BIN_CONTRACTS + [C_BIN_NEG]:
+    _c.rt = rt_bin
+
 for _c in FR_CONTRACTS:
     _c.setup.d = int(_c.note[0])
     _c.concretize, _c.rt, _c.rt_family = fr_conc(_c.setup), rt_resample, fam_resample_small
@@ -1356,6 +1435,8 @@ def lemma_resample_mean(ctx):
     return [
         ("DC bin stays the DC bin for all odd/even length pairs", [n >= 1, m >= 1], AND(signed_freq(z3.IntVal(0), m) == 0, present(z3.IntVal(0), n), bin_of(z3.IntVal(0), n) == 0)),
         ("mean preserved (complex)", hyp + [meanR == Nout / Nin * meanY], meanR == meanx),
+        ("N_out * mean(Y) = sum(x)  <=>  (N_out/N_in) * mean(Y) = sum(x)/N_in = mean(x)   (the per-path contract clause is stated in the first form)",
+         [Nin >= 1, Nout >= 1, Nout * meanY == Rl("sum_x")], Nout / Nin * meanY == Rl("sum_x") / Nin),
         ("mean of the inverse transform in terms of the input mean", hyp, meanY == (Nin / Nout) * meanx),
         ("mean preserved (real input: Re is R-homogeneous, Re(mean x) = mean x)",
          hyp + [meanY == (Nin / Nout) * meanx, meanR == Nout / Nin * cm.RE(meanY), cm.RE((Nin / Nout) * meanx) == (Nin / Nout) * cm.RE(meanx), cm.RE(meanx) == meanx], meanR == meanx),
@@ -1570,12 +1651,17 @@ def rt_resample_laws(inp):
         pr.append(f"up {shape}->{up} then down: max error {err:.3g}")
     if not (np.allclose(back.origin, da.origin, atol=1e-10) and np.allclose(back.sampling, da.sampling, atol=1e-12)):
         pr.append(f"up then down: origin/sampling {back.origin.tolist()}/{back.sampling.tolist()} not restored")
-    al, be = 1.7, -0.6
+    al, be = (1.7, -0.6) if is_real else (1.7 + 0.4j, -0.6 + 1.1j)  # linear over the array's own scalars
     out = tuple(inp["out"])
     r = lambda x: Dataset.from_array(np.array(x)).fourier_resample(out_shape=out).array
     lin = float(np.abs(r(al * a + be * b) - (al * r(a) + be * r(b))).max())
     if lin > 1e-9:
-        pr.append(f"not linear: |R(ax+by) - aR(x) - bR(y)| = {lin:.3g} for {shape}->{out}")
+        pr.append(f"not linear over {'real' if is_real else 'complex'} scalars: |R(ax+by) - aR(x) - bR(y)| = {lin:.3g} for {shape}->{out}")
+    same = Dataset.from_array(a.copy()).fourier_resample(out_shape=shape).array
+    if float(np.abs(same - a).max()) > 1e-9:
+        pr.append(f"unchanged shape {shape} but the data changed by {float(np.abs(same - a).max()):.3g}")
+    if abs(complex(r(a).mean()) - complex(a.mean())) > 1e-9:
+        pr.append(f"mean {r(a).mean()} != {a.mean()} for {shape}->{out}")
     return dict(violated=bool(pr), observed="; ".join(pr) or "ok", expected="up->down returns the Nyquist-free signal; resampling is linear")
 
 
@@ -1597,6 +1683,8 @@ def _klass(inp, res):
         return "empty axis selection with integer dtype: in-place scaling cannot cast"
     return f"{inp.get('dtype', 'any')}: {obs.split(';')[0][:60]}"
 
+
+rt_resample_laws = _never_crash(rt_resample_laws)
 
 BOUNDED = [
     Bounded.from_rt("bin: dtype sweep against int64/float64/complex128 block oracle", rt_bin, fam_bin_dtypes,
@@ -1620,7 +1708,9 @@ TRUSTED = [
     "A6 numpy: basic slicing, C-order reshape that splits an axis (new[i,j] = old[i*b+j], size condition proved per call), np.sum over axes = iterated sum, np.pad (interior placement, zero border in constant mode), ndarray.real, astype/copy; pyvc/lib/c06_models.py",
     "Sigma regrouping: sum over all output pixels of the block sums = sum over the covered region (finite-sum reindexing j*f+t <-> i; stated, checked at run time by the bounded bin checks)",
     "Dataset.copy returns an independent Dataset with equal array / origin / sampling / units (its contract is used at the call sites; its body is verified under C03, not here)",
-    "abstract complex scalars: spectrum values are elements of an R-vector space encoded in sort Real; only 0, +, real scaling and the R-linear idempotent map Re are applied to them",
+    "abstract complex scalars: array and spectrum values are elements of an R-vector space encoded in sort Real; only 0, +, real scaling and the R-linear idempotent map Re are applied to them; "
+    "the VALUE KIND (real / complex) of self.array is a case of the fourier_resample contract: np.isrealobj reads it, a conversion of a complex array to a real dtype is Re (imaginary part discarded, numpy semantics), "
+    "and the per-path clauses 'value kind', 'mean preserved', 'linear', 'identity' are stated over the array's own scalars with ground instances of A5 (DC bin = sum, mean of ifftn = DC/N, ifftn(fftn x) = x) as antecedents",
     "induction principle for the arithmetic-progression mean (base and step are proved)",
     "pyvc engine (AST interpreter, slice/index semantics, value-level merge of pure conditional expressions), z3, cvc5",
 ]
